@@ -276,6 +276,9 @@ impl Display for InlinePrintAmount<'_, '_> {
                 None => write!(f, "0"),
             },
             _ => {
+                // sorted by commodity, otherwise the output depends on the hash seed.
+                let mut vs: Vec<_> = vs.iter().collect();
+                vs.sort_unstable_by_key(|(c, _)| c.as_str());
                 write!(f, "(")?;
                 for (i, (c, v)) in vs.iter().enumerate() {
                     if i != 0 {
